@@ -61,6 +61,7 @@ static void scan_tsan (off_t from) {
     char k1[230], k2[230], key[220];
     snprintf (k1, sizeof k1, "%s@%s", a1, s1); snprintf (k2, sizeof k2, "%s@%s", a2, s2);
     if (strcmp (k1, k2) > 0) { char t[230]; strcpy (t, k1); strcpy (k1, k2); strcpy (k2, t); }
+    if (!strcmp (s1, "?") && !strcmp (s2, "?")) { w = next; continue; }        /* no repo frame on either side: the harness's own accesses */
     snprintf (key, sizeof key, "tsan:%s:%s|%s", kind, k1, k2);
     char first[400]; size_t fl = strcspn (w, "\n"); if (fl >= sizeof first) fl = sizeof first - 1; memcpy (first, w, fl); first[fl] = 0;
     vx_fail (key, "%s ; sites: %s vs %s (free-running %s variant %d)", first, k1, k2, c19_tsan_what, c19_tsan_variant);
